@@ -1,3 +1,3 @@
 #!/usr/bin/env bash
-# runs vf/benigncheck.sh for every b* directory given as arguments' children: usage vf/benignall.sh /tmp/seed/out_B1 /tmp/seed/out_B2 ...
-for d in "$@"; do for b in $d/b*; do [ -f $b/patch.diff ] && vf/benigncheck.sh $b; done; done
+# usage: vf/benignall.sh <dir> "<props>" [<dir> "<props>" ...]: runs vf/benigncheck.sh on every b*/ under dir for the listed properties
+while [ $# -ge 2 ]; do d=$1; props=$2; shift 2; for b in $d/b*; do [ -f $b/patch.diff ] && vf/benigncheck.sh $b $props; done; done
